@@ -122,6 +122,7 @@ class Paths:
     def __init__(self, prog, inline=None, depth=4, limit=1500, path_limit=400):
         self.prog = prog
         self.canon = Canon(prog)
+        self.canon.lam_args = False   # closures stay aggregates (with their captures): rules summarise them path by path
         self.inline = inline or (lambda g: prog.is_new(g))
         self.depth = depth
         self.limit = limit
